@@ -11,7 +11,7 @@ DRAW = {"matplotlib.pyplot.plot": "plot", "matplotlib.pyplot.bar": "bar", "matpl
 DRAW_METHODS = {"plot", "bar", "scatter"}
 
 
-def draw_calls(prog, cls, method="_plot_core", extra_hook=None, env=None, max_paths=256):
+def draw_calls(prog, cls, method="_plot_core", extra_hook=None, env=None, max_paths=256, merge=False):
     """Returns (calls, evaluator). calls: list of dicts {kind, args, kwargs, conds, node, env}."""
     hit = prog.lookup_method(cls, method)
     if hit is None:
@@ -38,6 +38,7 @@ def draw_calls(prog, cls, method="_plot_core", extra_hook=None, env=None, max_pa
         return None
     ev = symeval.Evaluator(m, call_hook=hook, max_paths=max_paths)
     ev.loop_mode = "body_once"
+    ev.merge_ifs = merge
     ev.run(f, env=env)
     return calls, ev
 
